@@ -54,6 +54,15 @@ class Top:
     seen: list[Node] = field(init=False, default_factory=list, repr=False, compare=False)
 
 
+class Zero(Node):
+    """a constant production written as a plain class: an annotated class attribute, no constructor of its own"""
+    symbol: str = "0"
+
+
+class Unit(Node):
+    """... and one without any annotation"""
+
+
 def _column(i: int):
     """one class per column, all made by the same factory: same module, same qualified name, different classes"""
     @dataclass
@@ -65,4 +74,4 @@ def _column(i: int):
 COLUMNS = [_column(i) for i in range(3)]
 
 GRAMMARS = [([Lit, Memo, Pair], Node), ([Lit, Memo], Node), ([Lit, Memo, Pair, Top], Top), ([Lit, Block, Pair], Node),
-            ([Lit, Pair] + COLUMNS, Node)]
+            ([Lit, Pair] + COLUMNS, Node), ([Zero, Pair, Memo], Node), ([Pair, Zero, Unit, Lit], Node), ([Pair, Unit], Node)]
